@@ -129,10 +129,27 @@ pub fn gen_valid(rng: &mut Rng) -> Vec<u8> {
     o
 }
 
-/// Identification strings that must not be answered.
+/// Identification strings that must not be answered (plus, one time in seven, the open cases:
+/// an empty software field, a NUL octet - the statement does not say, but nothing may crash).
 pub fn gen_fault(rng: &mut Rng) -> Vec<u8> {
     let mut v = gen_valid(rng);
-    match rng.below(5) {
+    match rng.below(7) {
+        5 => {
+            let ver: &[u8] = if rng.chance(1, 2) { b"SSH-2.0-" } else { b"SSH-1.99-" };
+            v = ver.to_vec();
+            match rng.below(4) {
+                0 => {}
+                1 => v.extend_from_slice(b" only a comment"),
+                2 => v.push(b' '),
+                _ => v.extend_from_slice(b"\r"),
+            }
+            v.extend_from_slice(b"\r\n");
+        }
+        6 => {
+            let k = rng.range(8, v.len() as u64 - 1) as usize;
+            let at = k.min(v.len() - 3);
+            v[at] = 0;
+        }
         0 => {
             // unterminated
             v.truncate(v.len() - 2);
